@@ -615,6 +615,19 @@ do_retrieve(void)
     rb->unord_link->end_pos = rb->curr_pos;
   }
 
+  if (rv == MORE && rb->curr_pos.offset < head_offs) {
+    /* The input we stopped in was released while we were running, which
+       means the parser has already advanced past us: we are a mis-recognized
+       bit pattern.  We must not be queued again, because nobody would be able
+       to attach us to released input (compare the same test in do_scan()). */
+    Trace(("Retriever found his input released"));
+    work_units++;
+    decoder_free(&rb->ds);
+    free(rb);
+    check_invariants();
+    return;
+  }
+
   if (rv == MORE) {
     Trace(("Retriever blocked waiting for input"));
     enqueue(retr_q, rb);
